@@ -54,7 +54,12 @@ theorem stepOp_handout {s s' : State} {j : Nat} {oc : Outcome} (hs : stepOp s j 
         all_goals simp only [State.setOp, State.emit, List.mem_append, List.mem_cons,
           List.not_mem_nil, or_false, reduceCtorEq] at hin
         all_goals exact Or.inl hin
-      · simp at hs
+      · split at hs
+        · simp only [stepRetPanic, Option.some.injEq] at hs; subst hs
+          simp only [State.setOp, State.emit, List.mem_append, List.mem_cons,
+            List.not_mem_nil, or_false, reduceCtorEq] at hin
+          exact Or.inl hin
+        · simp at hs
     | take pc o' add =>
       simp only at hs
       split at hs
@@ -68,7 +73,12 @@ theorem stepOp_handout {s s' : State} {j : Nat} {oc : Outcome} (hs : stepOp s j 
         all_goals simp only [State.setOp, State.emit, List.mem_append, List.mem_cons,
           List.not_mem_nil, or_false, reduceCtorEq] at hin
         all_goals exact Or.inl hin
-      · simp at hs
+      · split at hs
+        · simp only [stepTakePanic, Option.some.injEq] at hs; subst hs
+          simp only [State.setOp, State.emit, List.mem_append, List.mem_cons,
+            List.not_mem_nil, or_false, reduceCtorEq] at hin
+          exact Or.inl hin
+        · simp at hs
     | resize n c pc old =>
       simp only at hs
       split at hs
